@@ -28,6 +28,7 @@ impl vstd::std_specs::convert::FromSpecImpl<Vec<u8>> for Bytes {
 }
 impl From<Vec<u8>> for Bytes { fn from(v: Vec<u8>) -> (r: Bytes) { Bytes { v } } }
 impl HasBytes for Bytes { open spec fn bytes_view(&self) -> Seq<u8> { self@ } }
+impl HasBytes for BytesMut { open spec fn bytes_view(&self) -> Seq<u8> { self@ } }
 impl BytesMut {
     pub open spec fn view(&self) -> Seq<u8> { self.v@ }
     // A-bytes-01: remaining()/len() are the number of readable bytes (an allocation never exceeds isize::MAX)
@@ -86,6 +87,18 @@ impl BytesMut {
         ensures r@ == old(self)@.take(at as int), final(self)@ == old(self)@.skip(at as int),
             final(self).reserve_bound == old(self).reserve_bound
     { unimplemented!() }
+    // A-bytes-26: BytesMut::new / with_capacity are empty (no reserve budget imposed yet); put_u8 / put_u32 (big-endian) /
+    // put_slice append
+    #[verifier::external_body]
+    pub fn new() -> (r: BytesMut) ensures r@ == Seq::<u8>::empty(), r.reserve_bound@ < 0 { unimplemented!() }
+    #[verifier::external_body]
+    pub fn with_capacity(n: usize) -> (r: BytesMut) ensures r@ == Seq::<u8>::empty(), r.reserve_bound@ < 0 { unimplemented!() }
+    #[verifier::external_body]
+    pub fn put_u8(&mut self, v: u8) ensures final(self)@ == old(self)@.push(v), final(self).reserve_bound == old(self).reserve_bound { unimplemented!() }
+    #[verifier::external_body]
+    pub fn put_u32(&mut self, v: u32) ensures final(self)@ == old(self)@ + be32(v as int), final(self).reserve_bound == old(self).reserve_bound { unimplemented!() }
+    #[verifier::external_body]
+    pub fn put_slice(&mut self, s: &[u8]) ensures final(self)@ == old(self)@ + s@, final(self).reserve_bound == old(self).reserve_bound { unimplemented!() }
     // A-bytes-16: split() hands out everything and leaves the buffer empty
     #[verifier::external_body]
     pub fn split(&mut self) -> (r: BytesMut)
